@@ -117,7 +117,11 @@ fn drain(sock: &mut Socket, want: usize) -> Vec<u8> {
     sock.set_blocking(false);
     let mut got = vec![];
     for _ in 0..want + 2 {
-        match block_on("recv", sock.recv(1)) {
+        let r = block_on("recv", sock.recv(1));
+        if std::env::var("VLOOM_DEBUG").is_ok() {
+            eprintln!("recv -> {r:?}");
+        }
+        match r {
             Some(Ok(b)) if !b.is_empty() => got.extend(b),
             _ => break,
         }
